@@ -39,6 +39,7 @@ let () = each_line (fun l ->
      | "K" -> let v = n_of_int (num t) in push (Leaf v, v)
      | "C" -> let a = asgn_of_word (word t) in let v = n_of_int (num t) in let d = n_of_int (num t) in push (construct veq a v d, d)
      | "Y" -> push (get (num t))
+     | "A" -> let _ = get (num t) in push (get (num t))          (* a copy of the first handle, then copy-assigned from the second: value and default of the second *)
      | "U" -> let f = n_of_int (num t) in let (a, da) = get (num t) in push (apply1 veq (op1 dom f) a, op1 dom f da)
      | "B" -> let f = n_of_int (num t) in let (a, da) = get (num t) in let (b, db) = get (num t) in
               push (apply2 veq (op2 dom f) a b, op2 dom f da db)
